@@ -26,6 +26,12 @@ struct Case {
 
 /// Run the whole placeholder workflow with the payload fed in `split`; returns (state, leaves).
 fn workflow(c: &Case, split: &[usize], chunk: usize) -> Result<(String, Value, usize), String> {
+    workflow_full(c, split, chunk).map(|(a, b, c, _, _)| (a, b, c))
+}
+
+/// also returns the finished asset and (offset, header length, payload length) of its mdat
+#[allow(clippy::type_complexity)]
+fn workflow_full(c: &Case, split: &[usize], chunk: usize) -> Result<(String, Value, usize, Vec<u8>, (usize, usize, usize)), String> {
     let ctx = Arc::new(sdk::make_context(&json!({})).with_signer(sdk::make_signer("ed25519")));
     let vctx = Arc::new(sdk::make_context(&json!({})));
     c2pa::verif::set_random_seed(Some(c.seed));
@@ -83,7 +89,7 @@ fn workflow(c: &Case, split: &[usize], chunk: usize) -> Result<(String, Value, u
         .and_then(|a| a.iter().find(|(k, _)| k.starts_with("c2pa.hash.bmff")).map(|(_, v)| v.clone()))
         .and_then(|v| v.get("merkle").cloned())
         .unwrap_or(Value::Null);
-    Ok((rep.brief(), leaves, plen))
+    Ok((rep.brief(), leaves, plen, asset, (moff, hdr, plen)))
 }
 
 fn leaf_hashes(m: &Value) -> Value {
@@ -99,7 +105,7 @@ impl Property for C17 {
         Meta {
             id: "C17",
             level: "exploration",
-            rule: "one evaluation = one complete BMFF placeholder workflow on the real Builder (placeholder -> simulator lays out ftyp/free/moov/mdat -> the mdat payload is fed to hash_bmff_mdat_bytes in the scheduled pieces -> update_hash_from_stream over a chunking SimStream -> sign_embeddable -> manifest written over the free box -> Reader). Schedule: ALL two-way splits with the first cut in 0..32, all three-way splits with cuts in 0..12, plus seeded k-way splits with piece sizes around the leaf size; standard and large-size mdat headers; leaf size none / 1 KiB / 2 KiB. Oracle: every split reads Valid/Trusted like the single-call feed; with a fixed leaf size the recorded leaf hashes equal those of the single-call feed. Non-trivial = more than one piece; distinct = (header form, leaf size, split)",
+            rule: "one evaluation = one complete BMFF placeholder workflow on the real Builder (placeholder -> simulator lays out ftyp/free/moov/mdat -> the mdat payload is fed to hash_bmff_mdat_bytes in the scheduled pieces -> update_hash_from_stream over a chunking SimStream -> sign_embeddable -> manifest written over the free box -> Reader). Schedule: ALL two-way splits with the first cut in 0..32, all three-way splits with cuts in 0..12, plus seeded k-way splits with piece sizes around the leaf size; standard and large-size mdat headers; leaf size none / 1 KiB / 2 KiB. Payload sizes with a fixed leaf size: covered part (mdat box from byte 16) = whole leaves, one byte more, one byte less, arbitrary. Oracle: every split reads Valid/Trusted like the single-call feed; a one-bit change at the start, around every leaf boundary and at the end of the payload of the finished asset is never Valid/Trusted; with a fixed leaf size the recorded leaf hashes equal those of the single-call feed. Non-trivial = more than one piece; distinct = (header form, leaf size, split)",
             assumptions: &["payload = the bytes after the 8/16-byte mdat header, as the in-tree example feeds it", "one mdat per asset"],
             real: &["Builder::hash_bmff_mdat_bytes / MerkleAccumulator, update_hash_from_stream, sign_embeddable, BMFF hash validation"],
             stubbed: &["the caller (simulator splits the payload and patches the disk image)"],
@@ -124,7 +130,23 @@ impl Property for C17 {
         let shard = (rc.idx / 6) % 16;
         let variant = rc.idx / 96;
         let (large, leaf_kb) = [(false, None), (true, None), (false, Some(1)), (true, Some(1)), (false, Some(2)), (false, None)][cfg as usize];
-        let payload_extra = if leaf_kb.is_some() { 2500 + (variant as usize % 3) * 700 } else { 40 + (variant as usize % 5) * 37 + if cfg == 5 { 3000 } else { 0 } };
+        let payload_extra = match leaf_kb {
+            Some(kb) => {
+                // the leaves cover the mdat box from its 16th byte on: whole leaves, one byte more,
+                // one byte less, and an arbitrary size, in turn
+                let covered = match (variant + shard / 4) % 4 {
+                    0 => 2 * kb * 1024,
+                    1 => 2 * kb * 1024 + 1,
+                    2 => 3 * kb * 1024 - 1,
+                    _ => 2500 + (variant as usize % 3) * 700,
+                };
+                let want_payload = covered + if large { 0 } else { 8 };
+                let seed = hash_str(&format!("c17-{}-{cfg}-{variant}", rc.seed));
+                let p0 = assets::mp4_sized(&mut Rng::new(seed), 0, 0, Some(large)).1[0].2;
+                want_payload.saturating_sub(p0)
+            }
+            None => 40 + (variant as usize % 5) * 37 + if cfg == 5 { 3000 } else { 0 },
+        };
         let case = Case { payload_extra, large, leaf_kb, seed: hash_str(&format!("c17-{}-{cfg}-{variant}", rc.seed)) };
         let tag = format!("{}:{}:extra{payload_extra}", if large { "large" } else { "std" }, leaf_kb.map(|k| format!("leaf{k}k")).unwrap_or("varleaf".into()));
         // reference: one call
@@ -144,6 +166,45 @@ impl Property for C17 {
             // the single-call feed is part of the statement too
             out.violate(0, &format!("single-call-feed-not-valid:{}", if large { "large" } else { "std" }), "C17 the asset reads back Valid", json!({"scenario": tag, "state": reference.0}));
             return out;
+        }
+        // the finished asset is tamper-evident over the whole payload: a changed byte at the start,
+        // at each leaf boundary and at the very end is never Valid (shard 0 only)
+        if shard % 4 == 0 {
+            if let Ok((_, _, _, asset, (moff, hdr, pl))) = workflow_full(&case, &[plen], 0) {
+                let vctx = Arc::new(sdk::make_context(&json!({})));
+                let leaf = leaf_kb.map(|k| k * 1024).unwrap_or(0);
+                let mut pos: Vec<usize> = vec![0, 7, 8, 9, pl - 1, pl - 2, pl / 2];
+                if leaf > 0 {
+                    // leaf k starts at box offset 16 + k * leaf
+                    let mut q = 16 - hdr;
+                    while q < pl {
+                        pos.extend([q.saturating_sub(1), q, q + 1]);
+                        q += leaf;
+                    }
+                }
+                pos.retain(|p| *p < pl);
+                pos.sort();
+                pos.dedup();
+                for p in pos {
+                    let sub = 1_000_000 + p as u64;
+                    if !rc.want_sub(sub) {
+                        continue;
+                    }
+                    rc.mark(sub);
+                    let mut t = asset.clone();
+                    t[moff + hdr + p] ^= 0x01;
+                    out.evals += 1;
+                    out.fault("payload_byte_flip");
+                    out.keys.push(hash_str(&format!("{tag}|flip{p}")));
+                    let st = sdk::read_plain(&vctx, "video/mp4", &t).map(|r| r.state.clone()).unwrap_or_else(|e| format!("err:{e}"));
+                    if st == "Valid" || st == "Trusted" {
+                        let wherep = if p + 1 == pl { "last-byte".to_string() } else if leaf > 0 && p + hdr >= 16 && (p + hdr - 16) / leaf == (pl + hdr - 16 - 1) / leaf { "last-leaf".to_string() } else { "inner".to_string() };
+                        out.violate(sub, &format!("payload-change-undetected:{}:{wherep}", if leaf > 0 { "fixed-leaf" } else { "var-leaf" }),
+                            "C17 (with C01) a changed payload byte of the finished asset is never Valid",
+                            json!({"scenario": tag, "payload_offset": p, "payload_len": pl, "state": st}));
+                    }
+                }
+            }
         }
         // the schedule
         let mut splits: Vec<Vec<usize>> = Vec::new();
